@@ -1,5 +1,5 @@
 #!/usr/bin/env python3
-"""tools/retune.py <PID>... : run the quick check, then set each existing quick threshold to 60 % of the observed value
+"""tools/retune.py <PID>... : run the quick check, then set each existing quick threshold to 60 % of the observed value (25 % for counters fed by timing-dependent runs)
 (never below the old one unless the observation is lower). Edits tools/checks.py in place (thresholds only)."""
 import sys, json, subprocess, re, os
 sys.path.insert(0, '/verif/tools')
@@ -16,6 +16,8 @@ for pid in sys.argv[1:]:
         o = obs.get(k, 0)
         if k.startswith('control_reached') or k in ('race_detector_runs', 'pairs_with_baseline_statement', 'grid_walks', 'grid_requests', 'max_batch_size') or k.startswith('g_'):
             new[k] = min(v, o) if o else v
+        elif k.startswith(('overlapping_', 'req_err_', 'req_ok_', 'open_requests', 'events_published', 'waits', 'cancellations_', 'both_ready', 'fanout_', 'dry_runs', 'batches_of', 'death_with_task', 'unforced_reverts', 'ik_retries')):
+            new[k] = max(1, int(o * 0.25))  # counters fed by free-running (timing-dependent) runs: a wide margin
         else:
             new[k] = max(1, int(o * 0.6))
     src = open('/verif/tools/checks.py').read()
